@@ -154,6 +154,7 @@ type Engine struct {
 	EntryName     string
 	maxCex        int
 	UnknownFeas   int
+	BFS           bool          // explore breadth-first (used with Budget to produce a wide frontier quickly)
 	Budget        time.Duration // stop after this long and hand the unexplored prefixes back (Pending)
 	Pending       [][]PendingDecision
 	ResumeWork    [][]PendingDecision // start from these prefixes instead of the root
@@ -699,8 +700,14 @@ func (e *Engine) Explore(entry *ssa.Function, cfg RunConfig) {
 			e.work = nil
 			break
 		}
-		prefix := e.work[len(e.work)-1]
-		e.work = e.work[:len(e.work)-1]
+		var prefix []decision
+		if e.BFS {
+			prefix = e.work[0]
+			e.work = e.work[1:]
+		} else {
+			prefix = e.work[len(e.work)-1]
+			e.work = e.work[:len(e.work)-1]
+		}
 		e.runPath(entry, prefix)
 	}
 }
